@@ -1001,3 +1001,96 @@ func (g *Gen) closureStmt() Stmt {
 	g.declare(&gvar{name: name, typ: tFunc, ro: true, fn: gf})
 	return &VarDecl{Kind: ":=", Name: name, X: fl}
 }
+
+// LoopProgram generates a program that is dominated by one outer loop with the given bound whose body
+// is a generated statement block (nested loops, switches, conditionals, break/continue, calls, try):
+// the shape used to check that iteration count alone never exhausts VM capacity.
+func (g *Gen) LoopProgram(size int, bound int64) *Program {
+	g.budget = size
+	g.sc = &gscope{}
+	g.level = 0
+	p := &Program{}
+	nInit := 2 + g.pick(3)
+	for i := 0; i < nInit; i++ {
+		p.Stmts = append(p.Stmts, g.declStmt([]T{tInt, tInt, tStr, tListInt, tBool}[g.pick(5)]))
+	}
+	if g.chance(1, 2) {
+		p.Stmts = append(p.Stmts, g.funcDecl())
+	}
+	acc := g.fresh("acc")
+	p.Stmts = append(p.Stmts, &VarDecl{Kind: ":=", Name: acc, X: &IntLit{V: 0}})
+	g.declare(&gvar{name: acc, typ: tInt, ro: true})
+	inFunc := g.chance(1, 3)
+	var target *[]Stmt = &p.Stmts
+	var fl *FuncLit
+	if inFunc {
+		// the loop runs inside a function (frames, locals, return from inside the loop)
+		fl = &FuncLit{Name: g.fresh("run")}
+		g.level++
+		g.push(true)
+		g.push(false)
+		target = &fl.Body
+	}
+	f := &For{}
+	g.push(false)
+	kinds := []string{"three", "cond", "inf", "range0", "range1", "range2", "in"}
+	f.Kind = kinds[g.pick(len(kinds))]
+	bump := &Assign{Target: &Ident{Name: acc}, Op: "+=", X: &IntLit{V: 1}}
+	var pre []Stmt
+	switch f.Kind {
+	case "three":
+		i := g.fresh("i")
+		f.Init = &VarDecl{Kind: ":=", Name: i, X: &IntLit{V: 0}}
+		f.Cond = &Binary{Op: "<", L: &Ident{Name: i}, R: &IntLit{V: bound}}
+		f.Post = &IncDec{Name: i, Op: "++"}
+		g.declare(&gvar{name: i, typ: tInt, ro: true})
+	case "cond", "inf":
+		c := g.fresh("c")
+		pre = append(pre, &VarDecl{Kind: ":=", Name: c, X: &IntLit{V: 0}})
+		g.sc.parent.vars = append(g.sc.parent.vars, &gvar{name: c, typ: tInt, ro: true, level: g.level})
+		f.Body = append(f.Body, &IncDec{Name: c, Op: "++"})
+		if f.Kind == "cond" {
+			f.Cond = &Binary{Op: "<", L: &Ident{Name: c}, R: &IntLit{V: bound}}
+		} else {
+			f.Body = append(f.Body, &ExprStmt{X: &IfExpr{Cond: &Binary{Op: ">", L: &Ident{Name: c}, R: &IntLit{V: bound}}, Then: []Stmt{&Break{}}}})
+		}
+	default:
+		f.Iter = &IntLit{V: bound}
+		switch f.Kind {
+		case "range1":
+			f.K = g.fresh("k")
+			g.declare(&gvar{name: f.K, typ: tInt, ro: true})
+		case "range2":
+			f.K = g.fresh("k")
+			f.V = g.fresh("e")
+			g.declare(&gvar{name: f.K, typ: tInt, ro: true})
+			g.declare(&gvar{name: f.V, typ: tInt, ro: true})
+		case "in":
+			f.V = g.fresh("e")
+			g.declare(&gvar{name: f.V, typ: tInt, ro: true})
+		}
+	}
+	g.feat("for:" + f.Kind)
+	f.Body = append(f.Body, bump)
+	g.loops++
+	savedMix := g.Mix
+	g.Mix = MixControl
+	f.Body = append(f.Body, g.blockOf(2+g.pick(4))...)
+	g.Mix = savedMix
+	g.loops--
+	g.pop()
+	*target = append(*target, pre...)
+	*target = append(*target, f)
+	if inFunc {
+		fl.Body = append(fl.Body, &Return{X: &Ident{Name: acc}})
+		g.pop()
+		g.pop()
+		g.level--
+		p.Stmts = append(p.Stmts, &FuncDecl{F: fl})
+		p.Stmts = append(p.Stmts, &ExprStmt{X: &Call{F: &Ident{Name: fl.Name}}})
+	}
+	obs := g.observe()
+	obs = append(obs, &Ident{Name: acc})
+	p.Stmts = append(p.Stmts, &ExprStmt{X: &ListLit{Items: obs}})
+	return p
+}
